@@ -1,5 +1,6 @@
 import WfProofs.HandlerStatusRun
 import WfProofs.HandlerStatusSticky
+import WfProofs.HandlerStatusHistory
 import WfProps.C04
 /-!
 # C15 — the server's handler record reflects the run outcome
@@ -38,7 +39,8 @@ theorem C15_tables :
     (GenHandlerStatus.guardedByNotReplaying && GenHandlerStatus.statusBeforeAppend &&
       GenHandlerStatus.forwardOutsideGuard && GenHandlerStatus.underWriteLock &&
       GenHandlerStatus.statusWriteRetried && !GenHandlerStatus.appendRetried &&
-      GenHandlerStatus.retryPopsFront && GenHandlerStatus.retryRaisesWhenEmpty && GenHandlerStatus.startRetried &&
+      GenHandlerStatus.retryPopsFront && GenHandlerStatus.retryRaisesWhenEmpty && GenHandlerStatus.retryCopiesPerCall &&
+      GenHandlerStatus.startRetried &&
       !GenHandlerStatus.idleWriteRetried && GenHandlerStatus.idleWriteBeforeForward && GenHandlerStatus.idleSetsIdleSince &&
       !GenHandlerStatus.uhsReadsCurrentStatus && GenHandlerStatus.uhsStatusOnlyIfGiven && GenHandlerStatus.uhsResultOnlyIfGiven &&
       GenHandlerStatus.uhsErrorOnlyIfGiven && GenHandlerStatus.uhsIdleUnlessUnset && GenHandlerStatus.uhsNotFoundSkips) = true ∧
@@ -463,3 +465,34 @@ theorem C15_cancel_reflected_partial (s : St) (r : Rec) (hrow : s.row = some r) 
     simp [St.cancelHandler, hrow, hnt]
   rw [hc]
   exact ⟨rfl, _, h2, by simp [Rec.apply], by simp [Rec.apply], by simp [Rec.apply, stamps_cancelled]⟩
+
+/-! ## the retry budget over the lifetime of one runtime -/
+
+/-- **The budget of a write does not depend on earlier writes.**  After ANY history of one runtime instance
+(runs started, events of any run written with any store faults — recovered or not —, idle clears, restarts,
+cancels, late updates) the back-off schedule is the configured one, so a terminal status write of a run whose
+row says `running` still survives up to `len(persistence_backoff)` transient failures and stores its status.
+In the code this is the per-call copy `backoffs = list(self._persistence_backoff)` in `_retry_store_write`
+(regenerated as `retryCopiesPerCall`): popping from the runtime's own list would drain the budget for good. -/
+theorem C15_budget_per_write (s0 : St) (hist : List HistOp) (run : Nat) (e : HandlerStatus.Ev) (st : Status)
+    (x : Option Err) (y : Option Nat) (f : Faults) :
+    let s := (hist.foldl St.hist s0).armed f
+    GenHandlerStatus.retryCopiesPerCall = true ∧ s.backoff = s0.backoff ∧
+    (statusArgs e = some (st, x, y) → RunningFor run s → f.1 ≤ s0.backoff.length → f.2 = 0 →
+      (s.writeEvent run e false).2 = true ∧ ∃ r1, (s.writeEvent run e false).1.row = some r1 ∧ r1.runId = run ∧ r1.status = st) := by
+  intro s
+  have hb : s.backoff = s0.backoff := hists_backoff hist s0
+  refine ⟨by decide, hb, ?_⟩
+  intro hargs hr hf1 hf2
+  obtain ⟨h1, r0, nw, _, hrun, h4, _⟩ := writeEvent_terminal s run e st x y hargs hr (by rw [hb]; exact hf1) hf2
+  exact ⟨h1, _, h4, by simpa [Rec.apply] using hrun, by simp [Rec.apply]⟩
+
+example : -- non-vacuity: three runs on one runtime, each terminal write recovered after two failures; the fourth likewise
+    let hist : List HistOp := [.start 1, .op (.arm 2 0 0), .op (.event 1 { kind := .stop, tok := 5 } false),
+      .start 2, .op (.arm 2 0 0), .op (.event 2 { kind := .failed, tok := 3 } false),
+      .op (.arm 0 0 2), .start 3, .op (.arm 2 0 0), .op (.event 3 { kind := .cancelled } false), .start 4]
+    let s := (hist.foldl St.hist {}).armed (2, 0)
+    (s.slept, s.row.map (fun r => (r.runId, r.status)),
+      (s.writeEvent 4 { kind := .stop, tok := 9 } false).2,
+      (s.writeEvent 4 { kind := .stop, tok := 9 } false).1.row.map (fun r => (r.status, r.result))) =
+    (14000, some (4, .running), true, some (.completed, some 9)) := by decide
